@@ -33,14 +33,12 @@ var id int
 
 const nanBits = "7ff8000000000001"
 
-// canon renders a float for obs lines: NaN payloads and the sign of zero are not observable
-// through any operation of the property.
+// canon renders a float for obs lines: NaN payloads are not observable through any operation of the
+// property. The sign of a zero IS observable (an exact-model centre of -0 vs +0) and, since fix F27
+// (NewSample orders -0 before +0), determined by the sample as a multiset.
 func canon(f float64) string {
 	if math.IsNaN(f) {
 		return nanBits
-	}
-	if f == 0 {
-		return "0000000000000000"
 	}
 	return hx.F64(f)
 }
@@ -72,6 +70,7 @@ var (
 		"sample is too small":      "err:size",
 		"all samples are equal":    "err:equal",
 		"sample has zero variance": "err:zerovar",
+		"sample contains NaN":      "err:nan",
 	}
 )
 
@@ -216,7 +215,23 @@ func sumCase(a string, vals []float64, conf float64, tag string) {
 		wt = warnTag(sum.Warnings, sorted[0], sorted[len(sorted)-1])
 	}
 	pct := sum.PctRangeString()
-	more := ""
+	// the same measurements in two other arrival orders: reversed, and odd positions first
+	trip := func(xs []float64) string {
+		o := assumptions[a].Summary(newSample(xs, 0.05), conf)
+		return raw(o.Center) + ":" + raw(o.Lo) + ":" + raw(o.Hi)
+	}
+	rev := make([]float64, 0, len(vals))
+	for i := len(vals) - 1; i >= 0; i-- {
+		rev = append(rev, vals[i])
+	}
+	alt := make([]float64, 0, len(vals))
+	for i := 1; i < len(vals); i += 2 {
+		alt = append(alt, vals[i])
+	}
+	for i := 0; i < len(vals); i += 2 {
+		alt = append(alt, vals[i])
+	}
+	more := fmt.Sprintf(" irev=%s ialt=%s", trip(rev), trip(alt))
 	if a == "nothing" {
 		// the warning's claim, tried out on the real code: does a sample of the named size get a finite
 		// interval at this confidence, and does one value fewer still get an infinite one?
@@ -230,18 +245,18 @@ func sumCase(a string, vals []float64, conf float64, tag string) {
 				wprev = 1
 			}
 		}
-		more = fmt.Sprintf(" wn=%d wfin=%d wprev=%d", wn, wfin, wprev)
+		more += fmt.Sprintf(" wn=%d wfin=%d wprev=%d", wn, wfin, wprev)
 	}
 	hx.Printf("case %d kind=sum a=%s vals=%s conf=%s%s ic=%s ilo=%s ihi=%s iconf=%s iwarn=%s ipct=%s%s tag=%s\n",
 		id, a, list(vals), raw(conf), ext, raw(sum.Center), raw(sum.Lo), raw(sum.Hi), raw(sum.Confidence), wt, hx.HexS(pct), more, tag)
 	hx.Printf("obs %d center=%s lo=%s hi=%s conf=%s warn=%s pct=%s\n", id, canon(sum.Center), canon(sum.Lo), canon(sum.Hi),
 		canon(sum.Confidence), wt, hx.HexS(pct))
 	if a == "nothing" {
-		hx.Printf("sobs %d centre=ok ends=ok bracket=ok conf=ok warn=ok pct=ok needn=ok have=ok\n", id)
+		hx.Printf("sobs %d centre=ok ends=ok bracket=ok conf=ok warn=ok pct=ok reorder=ok needn=ok have=ok\n", id)
 	} else if a == "normal" {
-		hx.Printf("sobs %d centre=ok ends=ok bracket=ok conf=ok warn=ok pct=ok tcov=ok\n", id)
+		hx.Printf("sobs %d centre=ok ends=ok bracket=ok conf=ok warn=ok pct=ok reorder=ok tcov=ok\n", id)
 	} else {
-		hx.Printf("sobs %d centre=ok ends=ok bracket=ok conf=ok warn=ok pct=ok\n", id)
+		hx.Printf("sobs %d centre=ok ends=ok bracket=ok conf=ok warn=ok pct=ok reorder=ok\n", id)
 	}
 	id++
 }
@@ -398,6 +413,87 @@ func pOrErrU(x1, x2 []float64, alt stats.LocationHypothesis) string {
 	return raw(res.P)
 }
 
+func hasNaN(xs []float64) bool {
+	for _, x := range xs {
+		if math.IsNaN(x) {
+			return true
+		}
+	}
+	return false
+}
+
+// zeroFamily: samples holding both zeros (with other values), in every arrival order, under all three
+// assumptions; comparisons between them. NewSample must order them the same way whatever the order.
+func zeroFamily(r *hx.Rand) {
+	nz := math.Copysign(0, -1)
+	multis := [][]float64{{0, nz}, {0, nz, 1}, {0, nz, -1}, {0, 0, nz}, {nz, nz, 0}, {0, nz, 1, -1}, {0, nz, nz, 1}, {0, 0, nz, -2}, {nz, 0, nz, 0}}
+	var perms func(xs []float64, k int, f func([]float64))
+	perms = func(xs []float64, k int, f func([]float64)) {
+		if k == len(xs) {
+			f(append([]float64(nil), xs...))
+			return
+		}
+		for i := k; i < len(xs); i++ {
+			xs[k], xs[i] = xs[i], xs[k]
+			perms(xs, k+1, f)
+			xs[k], xs[i] = xs[i], xs[k]
+		}
+	}
+	var all [][]float64
+	for _, m := range multis {
+		perms(append([]float64(nil), m...), 0, func(p []float64) {
+			all = append(all, p)
+			for _, a := range anames {
+				sumCase(a, p, 0.95, a+"+zeromix")
+			}
+		})
+	}
+	for i := 0; i < 120; i++ {
+		v1, v2 := all[r.Intn(len(all))], all[r.Intn(len(all))]
+		for _, a := range anames {
+			cmpCase(r, a, v1, v2, pickAlpha(r), false, a+"+zeromix")
+		}
+	}
+	// larger samples (beyond the insertion-sort range of the library sorts) with many zeros of both signs
+	for i := 0; i < 60; i++ {
+		n := 13 + r.Intn(58)
+		xs := make([]float64, n)
+		for j := range xs {
+			switch r.Intn(5) {
+			case 0:
+				xs[j] = nz
+			case 1, 2:
+				xs[j] = 0
+			default:
+				xs[j] = float64(r.Intn(7) - 3)
+			}
+		}
+		for _, a := range anames {
+			sumCase(a, xs, pickConf(r), a+"+zeromix+large")
+		}
+	}
+}
+
+// nanFamily (K only): comparisons of samples containing NaN under the rank-based and the exact model.
+func nanFamily(r *hx.Rand) {
+	nanv := math.NaN()
+	for i := 0; i < 40; i++ {
+		v1, _ := sample(r, 1+r.Intn(8))
+		v2, _ := sample(r, 1+r.Intn(8))
+		switch i % 3 {
+		case 0:
+			v1[r.Intn(len(v1))] = nanv
+		case 1:
+			v2[r.Intn(len(v2))] = nanv
+		default:
+			v1[r.Intn(len(v1))] = nanv
+			v2[r.Intn(len(v2))] = nanv
+		}
+		cmpCase(r, "nothing", v1, v2, pickAlpha(r), false, "nothing+nan")
+		cmpCase(r, "exact", v1, v2, pickAlpha(r), false, "exact+nan")
+	}
+}
+
 // safeP runs one comparison; a panic of the real code becomes the text "panic".
 func safeP(f func() benchmath.Comparison) (p string) {
 	defer func() {
@@ -442,11 +538,16 @@ func cmpCase(r *hx.Rand, a string, v1, v2 []float64, alpha float64, alphaEqP boo
 		}
 	}
 	s1, s2 := newSample(v1, alpha), newSample(v2, 0.75) // Alpha must come from the FIRST sample
-	switch a {
-	case "nothing":
+	nan := hasNaN(v1) || hasNaN(v2)
+	switch {
+	case nan:
+		// NaN is outside the property's quantifier: K-only cases (fix F28: no U-test on NaN, whose
+		// rank computation does not terminate — so the harness must not call it either)
+		ext = " nan=1 ud=err:nan ul1=err:nan ul2=err:nan"
+	case a == "nothing":
 		ext = fmt.Sprintf(" ud=%s ul1=%s ul2=%s", pOrErrU(s1.Values, s2.Values, stats.LocationDiffers),
 			pOrErrU(s1.Values, s2.Values, stats.LocationLess), pOrErrU(s2.Values, s1.Values, stats.LocationLess))
-	case "normal":
+	case a == "normal":
 		ext = " wp=" + welch(s1.Values, s2.Values)
 	}
 	c := asm.Compare(s1, s2)
@@ -470,7 +571,9 @@ func cmpCase(r *hx.Rand, a string, v1, v2 []float64, alpha float64, alphaEqP boo
 		id, a, list(v1), list(v2), raw(alpha), ext, raw(old), raw(new), raw(c.P), c.N1, c.N2, raw(c.Alpha), wt,
 		p21, psh, psc, k, hx.HexS(delta), hx.HexS(str), tag)
 	hx.Printf("obs %d p=%s n1=%d n2=%d alpha=%s warn=%s delta=%s str=%s\n", id, canon(c.P), c.N1, c.N2, canon(c.Alpha), wt, hx.HexS(delta), hx.HexS(str))
-	hx.Printf("sobs %d n=ok prange=ok sym=ok shuf=ok scale=ok exact=%s alpha=ok warn=ok errp=ok shown=ok delta=ok str=ok\n", id, exact)
+	if !nan {
+		hx.Printf("sobs %d n=ok prange=ok sym=ok shuf=ok scale=ok exact=%s alpha=ok warn=ok errp=ok shown=ok delta=ok str=ok\n", id, exact)
+	}
 	id++
 }
 
@@ -840,6 +943,8 @@ func main() {
 
 	xFamily(hx.NewRand(1313), hx.N(40, 400))
 	needFamily(hx.NewRand(1314))
+	zeroFamily(hx.NewRand(1315))
+	nanFamily(hx.NewRand(1316))
 
 	renderCases(r, hx.N(4000, 40000))
 
